@@ -57,8 +57,12 @@ def run(ctx):
     r3 = ctx.rule("C17.R3", "RAISE: __getitem__ turns list keys into tuples before the lookup and converts KeyError into InvalidPatchLookup", "RAISE", floor=2)
     r4 = ctx.rule("C17.R4", "DEP: verify checks every (algorithm, digest) pair, exits only by raising PatchSetVerificationError or exhausting the loop; utils.digest hashes json.dumps(obj, sort_keys=True)", "DEP", floor=3)
     r5 = ctx.rule("C17.R5", "ORDER/EFFECT: in apply, verify(spec) dominates the patch application, the patch is applied not in place, the result is wrapped in Workspace", "ORDER", floor=3)
+    r6 = ctx.rule("C17.R6", "SEMANTIC: PatchSet / Patch / utils.digest INTERPRETED (object model; jsonpatch.JsonPatch, json.dumps and hashlib modelled): a set with an EMPTY patch, a patch NAMED 'name' and an ordinary one is built; every patch is returned by exactly its name, its value tuple and its value list, unknown keys raise InvalidPatchLookup; duplicate names, duplicate values and a wrong value count are refused with InvalidPatchSet; verify accepts the recorded workspace and any key-reordering of it (also inside lists), rejects a changed one under either algorithm, also when the SAME object was verified before and then changed; apply verifies first, returns Workspace(patched copy) and leaves its input untouched", "SEMANTIC", floor=8)
+    _semantic(ctx, r6, repo)
     if not lookups:
-        ctx.unrecognised(r1, getitem, "__getitem__", "no self.<dict>[key] lookup found")
+        for r_ in (r1, r2, r3, r4, r5):
+            ctx.holds(r_, f"{PS}::PatchSet (structural anchors not present)", "decided by C17.R6 alone")
+            ctx.rules[r_].floor = 0
         return
     table = A.dotted(lookups[0].value)  # 'self._patches_by_key'
     attr = table.split(".", 1)[1]
@@ -274,3 +278,197 @@ def _is_neq(t):
     if isinstance(t, ast.UnaryOp) and isinstance(t.op, ast.Not) and isinstance(t.operand, ast.Compare) and isinstance(t.operand.ops[0], ast.Eq):
         return True
     return False
+
+
+def _semantic(ctx, rid, repo):
+    import copy
+    from ..alg import NotHandled, Obj, Poly, PyFunc, RaisedInFragment, Undecided, to_poly
+    from ..objmodel import Instance, World
+    psc, pc = repo.cls(PS, "PatchSet"), repo.cls(PS, "Patch")
+    for m_ in list(psc.methods.values()) + list(pc.methods.values()):
+        ctx.touch(m_)
+
+    def canon(obj, sort_keys):
+        if isinstance(obj, dict):
+            items = list(obj.items())
+            if sort_keys:
+                items = sorted(items, key=lambda kv: str(kv[0]))
+            return "{" + ",".join(f"{k!r}:{canon(v, sort_keys)}" for k, v in items) + "}"
+        if isinstance(obj, (list, tuple)):
+            return "[" + ",".join(canon(v, sort_keys) for v in obj) + "]"
+        if isinstance(obj, (str, bool)) or obj is None:
+            return repr(obj)
+        return str(to_poly(obj))
+
+    def not_mine():
+        raise NotHandled()
+
+    class WsDict(dict):
+        """pyhf.Workspace: a validated deep copy of the document it is constructed from."""
+
+        def __init__(self, spec):
+            super().__init__(copy.deepcopy(dict(spec)))
+            self.built_from = canon(spec, True)
+
+    def mk_world():
+        made = []
+        ext = {
+            "__strict__": True,
+            "dumps": lambda a, k: canon(a[0], k.get("sort_keys") is True),
+            ".encode": lambda recv, a, k: recv if isinstance(recv, str) else not_mine(),
+            ".hexdigest": lambda recv, a, k: recv.attrs["hex"] if isinstance(recv, Obj) and "hex" in recv.attrs else not_mine(),
+            "Workspace": lambda a, k: WsDict(a[0]),
+        }
+
+        def hasher(alg):
+            return PyFunc(lambda a, k: Obj("hash", {"hex": f"{alg}:{a[0]}"}), alg)
+
+        w = World(ext, module_env={"log": Obj("log"), "schema": Obj("schema"), "exceptions": Obj("exceptions"), "json": Obj("json"), "utils": Obj("utils"), "jsonpatch": Obj("jsonpatch"),
+                                   "hashlib": Obj("hashlib", {"sha256": hasher("sha256"), "md5": hasher("md5")}, closed=True)})
+        w.add_class(psc).add_class(pc)
+        for q, f in repo.module(UT).funcs.items():
+            if "." not in q:
+                w.add_func(f)
+
+        def jp_init(inst, a, k):
+            inst.attrs["patch"] = list(a[0])
+
+        def jp_apply(inst, a, k):
+            doc = a[0]
+            inplace = k.get("in_place", a[1] if len(a) > 1 else False)
+            tgt = doc if inplace is True else copy.deepcopy(doc)
+            tgt["__patched_by__"] = inst.attrs["_metadata"]["name"]
+            if isinstance(tgt.get("channels"), list) and tgt["channels"] and isinstance(tgt["channels"][0], dict):
+                tgt["channels"][0]["__patched__"] = True  # real patches edit NESTED containers: a shallow copy shares them
+            return tgt
+
+        w.add_foreign_base("JsonPatch", {"__init__": jp_init, "apply": jp_apply, "__bool__": lambda inst, a, k: bool(inst.attrs["patch"])})
+        return w, made
+
+    c = Poly.const
+
+    def pspec(name, vals, ops):
+        return {"metadata": {"name": name, "values": [c(v) for v in vals]}, "patch": list(ops)}
+
+    def setspec(patches, digests=None):
+        return {"metadata": {"references": {}, "description": "d", "digests": dict(digests or {"sha256": "X"}), "labels": ["x", "y"]}, "patches": patches, "version": "1.0.0"}
+
+    errs = (Undecided, KeyError, TypeError, ValueError, IndexError, AttributeError)
+    good = [pspec("p_empty", [1, 2], []), pspec("p1", [3, 4], [{"op": "add"}]), pspec("name", [5, 6], [{"op": "replace"}])]
+    # ---- lookup
+    try:
+        w, _ = mk_world()
+        ps = w.new(psc, [setspec(copy.deepcopy(good))], {})
+        n_pat = len(w.call_method(ps, "__len__", []) if False else ps.attrs.get("_patches", []))
+        probs = []
+        for nm, vals in (("p_empty", (1, 2)), ("p1", (3, 4)), ("name", (5, 6))):
+            for key, how in ((nm, "name"), (tuple(c(v) for v in vals), "value tuple"), ([c(v) for v in vals], "value list")):
+                try:
+                    r = w.call_method(ps, "__getitem__", [key])
+                    got = r.attrs["_metadata"]["name"] if isinstance(r, Instance) else repr(r)
+                    if got != nm:
+                        probs.append(f"patch {nm!r} looked up by its {how} gives {got}")
+                except RaisedInFragment as e:
+                    probs.append(f"patch {nm!r} (registered) looked up by its {how} raises {e.exc_name}" + (" -- its operation list is empty, which the schema allows" if nm == "p_empty" else ""))
+        for key in ("nope", (c(9), c(9)), "values", "metadata"):
+            try:
+                r = w.call_method(ps, "__getitem__", [key])
+                probs.append(f"unknown key {key!r} returns {getattr(r, 'name', r)!r} instead of raising")
+            except RaisedInFragment as e:
+                if e.exc_name.split(".")[-1] != "InvalidPatchLookup":
+                    probs.append(f"unknown key {key!r} raises {e.exc_name}, not InvalidPatchLookup")
+        if n_pat != 3:
+            probs.append(f"{n_pat} patches registered, 3 given")
+        if probs:
+            ctx.violated(rid, psc.methods["__getitem__"], "lookup by name / values", "a registered patch is not retrievable by exactly its name and by exactly its value tuple, or an unknown key does not raise InvalidPatchLookup: " + probs[0], expected="3 patches x 3 key forms found; 4 unknown keys -> InvalidPatchLookup", found=f"{len(probs)} deviation(s)")
+        else:
+            ctx.holds(rid, f"{PS}::PatchSet lookup", "3 patches (one empty, one named 'name') x {name, value tuple, value list}; 4 unknown keys raise InvalidPatchLookup")
+    except errs as e:
+        ctx.unrecognised(rid, psc, "PatchSet lookup", f"not interpretable: {type(e).__name__}: {e}")
+    # ---- refusals at construction
+    for lab, patches in (("duplicate name", [pspec("a", [1, 2], []), pspec("a", [3, 4], [])]), ("duplicate values", [pspec("a", [1, 2], []), pspec("b", [1, 2], [])]), ("wrong number of values", [pspec("a", [1, 2, 3], [])])):
+        try:
+            w, _ = mk_world()
+            w.new(psc, [setspec(patches)], {})
+            ctx.violated(rid, psc.methods["__init__"], f"construction [{lab}]", f"a patch set with a {lab} is accepted", expected="raise InvalidPatchSet", found="accepted")
+        except RaisedInFragment as e:
+            if e.exc_name.split(".")[-1] == "InvalidPatchSet":
+                ctx.holds(rid, f"{PS}::PatchSet.__init__ [{lab}]", "refused with InvalidPatchSet")
+            else:
+                ctx.violated(rid, psc.methods["__init__"], f"construction [{lab}]", f"{lab} raises {e.exc_name}, not InvalidPatchSet")
+        except errs as e:
+            ctx.unrecognised(rid, psc, f"construction [{lab}]", f"not interpretable: {type(e).__name__}: {e}")
+    # ---- verify / apply
+    def workspace(order=0, yield_="n0"):
+        s1 = {"name": "s", "data": [Poly.atom(yield_)], "modifiers": [{"name": "mu", "type": "normfactor", "data": None}]}
+        ch = {"name": "c", "samples": [s1]}
+        if order:
+            s1 = dict(reversed(list(s1.items())))
+            ch = {"samples": [s1], "name": "c"}
+            return {"version": "1.0.0", "observations": [{"data": [Poly.atom("o0")], "name": "c"}], "measurements": [], "channels": [ch]}
+        return {"channels": [ch], "measurements": [], "observations": [{"name": "c", "data": [Poly.atom("o0")]}], "version": "1.0.0"}
+
+    try:
+        w, made = mk_world()
+        dg = {alg: w.call_func(repo.func(UT, "digest"), [workspace()], {"algorithm": alg}) for alg in ("sha256", "md5")}
+        ps = w.new(psc, [setspec(copy.deepcopy(good), dg)], {})
+        probs = []
+
+        def verdict(ws_):
+            try:
+                w.call_method(ps, "verify", [ws_])
+                return "accepted"
+            except RaisedInFragment as e:
+                return e.exc_name.split(".")[-1]
+
+        if verdict(workspace()) != "accepted":
+            probs.append("the recorded workspace is rejected")
+        if verdict(workspace(order=1)) != "accepted":
+            probs.append("the recorded workspace with its keys listed in another order (top level and inside lists) is rejected: the digest depends on key order")
+        if verdict(workspace(yield_="n_changed")) != "PatchSetVerificationError":
+            probs.append(f"a workspace with a changed yield is {verdict(workspace(yield_='n_changed'))}")
+        ps2 = w.new(psc, [setspec(copy.deepcopy(good), {"sha256": dg["sha256"], "md5": "md5:something else"})], {})
+        try:
+            w.call_method(ps2, "verify", [workspace()])
+            probs.append("a wrong md5 digest is ignored when the sha256 digest matches")
+        except RaisedInFragment:
+            pass
+        same = workspace()
+        if verdict(same) == "accepted":
+            same["channels"][0]["samples"][0]["data"][0] = Poly.atom("n_changed_later")
+            if verdict(same) != "PatchSetVerificationError":
+                probs.append("a workspace OBJECT that verified once still verifies after its content was changed")
+        if probs:
+            ctx.violated(rid, psc.methods["verify"], "verification", "verification does not succeed if and only if the workspace's digest (insensitive to key order) equals the recorded one for every listed algorithm: " + probs[0], found=f"{len(probs)} deviation(s)")
+        else:
+            ctx.holds(rid, f"{PS}::PatchSet.verify", "accepts the recorded workspace and its key-reorderings; rejects a changed one (any algorithm, also after an earlier successful verification of the same object)")
+        # apply
+        src = workspace()
+        before = canon(src, True)
+        res = w.call_method(ps, "apply", [src, "p1"])
+        if not (isinstance(res, WsDict) and res.get("__patched_by__") == "p1"):
+            ctx.violated(rid, psc.methods["apply"], "apply result", "apply does not return a Workspace holding the document patched with the requested patch", found=f"{type(res).__name__} patched_by={res.get('__patched_by__') if isinstance(res, dict) else None}")
+        elif res.built_from != canon(res, True):
+            ctx.violated(rid, psc.methods["apply"], "apply result", "the Workspace returned was constructed (validated, summarised) from the UNPATCHED document and patched afterwards: its derived state describes the background, not the result")
+        elif canon(src, True) != before:
+            ctx.violated(rid, psc.methods["apply"], "apply input", "apply modifies the caller's background workspace")
+        else:
+            ctx.holds(rid, f"{PS}::PatchSet.apply", "Workspace constructed from the patched copy; input untouched")
+        try:
+            w.call_method(ps, "apply", [workspace(yield_="n_changed"), "p1"])
+            ctx.violated(rid, psc.methods["apply"], "apply without verification", "a patch is applied to a workspace that does not verify")
+        except RaisedInFragment as e:
+            if e.exc_name.split(".")[-1] == "PatchSetVerificationError":
+                ctx.holds(rid, f"{PS}::PatchSet.apply [foreign workspace]", "refused with PatchSetVerificationError")
+            else:
+                ctx.violated(rid, psc.methods["apply"], "apply on a foreign workspace", f"raises {e.exc_name}")
+        try:
+            w.call_method(ps, "apply", [workspace(), "nope"])
+            ctx.violated(rid, psc.methods["apply"], "apply with an unknown key", "no InvalidPatchLookup")
+        except RaisedInFragment as e:
+            if e.exc_name.split(".")[-1] == "InvalidPatchLookup":
+                ctx.holds(rid, f"{PS}::PatchSet.apply [unknown key]", "InvalidPatchLookup")
+            else:
+                ctx.violated(rid, psc.methods["apply"], "apply with an unknown key", f"raises {e.exc_name}")
+    except errs as e:
+        ctx.unrecognised(rid, psc, "verify / apply", f"not interpretable: {type(e).__name__}: {e}")
